@@ -402,6 +402,8 @@ class NumpyModel:
         res = Arr(shape, get, a.kind, own=False, view_of=a, affine=affine)
         if a.rank == 1 and len(plan) == 1 and plan[0][0] == "map" and isinstance(keys[0], Slc):
             res.slice_of = (a, plan[0][2](0))       # (base array, offset): res[i] == base[offset + i]
+        if a.rank == 2 and isinstance(keys[0], Slc) and plan[0][0] == "map" and isinstance(keys[1], Slc) and nil(keys[1].lo) and nil(keys[1].hi):
+            res.row_slice_of = (a, plan[0][2](0), shape[0])       # rows [offset, offset + length) of the base array, all columns
         return res
 
     def mask_gather(self, st, a: Arr, mask: Arr, node):
